@@ -90,6 +90,16 @@ func verifMapLike(b []byte) {
 	}
 }
 
+// verifNoTag: an arbitrary buffer handed to the claims decoder does not start with a tag head
+// (the repaired DecodeClaimsFromCBOR skips leading tag heads byte by byte; on arbitrary
+// symbolic content that loop has no bound - tagged payloads are decided in C20payload instead)
+func verifNoTag(b []byte) []byte {
+	if ndSymbolic() && len(b) > 0 {
+		ndAssume(b[0]>>5 != 6)
+	}
+	return b
+}
+
 // verifScript: the decoder yields g (nil = error) for exactly this buffer
 func verifScript(buf []byte, g *genP1) {
 	if g != nil {
